@@ -1119,11 +1119,12 @@ namespace chaiscript {
         }
 
         void process_unicode() {
-          const auto ch = static_cast<uint32_t>(std::stoi(hex_matches, nullptr, 16));
           const auto match_size = hex_matches.size();
+          const auto u_size = unicode_size;
+          // only a complete escape is converted: 4 or 8 characters, all of them hex digits, always fit 32 bits
+          const auto ch = (u_size == match_size) ? static_cast<uint32_t>(std::stoul(hex_matches, nullptr, 16)) : uint32_t(0);
           hex_matches.clear();
           is_escaped = false;
-          const auto u_size = unicode_size;
           unicode_size = 0;
 
           char buf[4];
